@@ -73,7 +73,7 @@ theorem each_complete (strs : List Str) (fs : List Feature) (ix : Index) (hbuild
     have hk : kept fs f = true := by
       unfold kept
       rcases ht with h | h | h <;> simp only [h] at hmatch ⊢
-      · simp only [Bool.and_eq_true] at hmatch; exact hmatch.1.2
+      · simp only [Bool.and_eq_true] at hmatch; exact hmatch.1.1.2
       · simp only [Bool.and_eq_true] at hmatch; exact hmatch.1.2
     obtain ⟨n, b, e, hn, hbm, hbt, hbh, _, hem, heid, _, _, _⟩ :=
       placed strs fs ix c hb hA.small hA.distinct f hf ht hk
